@@ -822,6 +822,10 @@ def preserves(src, out, mini):
         return ('doctype', 'doctype %r became %r' % (dt_in, dt_out))
     r = compare_blocks(top_in, top_out, False, '', mini)
     if r is not None:
+        if singleton_joined(src):
+            # the recorded finding's class, recognised on the input alone: a literal '<' or '&' directly followed by a
+            # text piece that starts with a line break — the data rule strips the break and the two touch in the output
+            return ('singleton-joined', '%s: %s' % (r[0], r[1]))
         return r
     # anchor outside the library: every start tag of the input (as the stdlib tokenizer reports it) becomes one element, in
     # document order, whose attributes are those written in the input (C02's independent intake reference) — two parses by
@@ -841,6 +845,18 @@ def preserves(src, out, mini):
             if e.tagName == t[1] and not c02.attrs_match(c02.spec_attrs([tuple(a) for a in t[2]]), e.getAttributesList(), loose_bool=True):
                 return ('attributes', '<%s>: the input has %r, the output parses to %r' % (t[1], t[2], e.getAttributesList()))
     return None
+
+
+def singleton_joined(src):
+    """does the input hold a text piece ending in a literal '<' or '&' directly followed (as the stdlib tokenizer cuts it) by
+    a text piece that starts with a line break and continues with a character other than a blank?"""
+    toks = tokens(src)
+    for a, b in zip(toks, toks[1:]):
+        if a[0] == 'd' and b[0] == 'd' and a[1][-1:] in ('<', '&') and b[1][:1] in ('\r', '\n'):
+            rest = b[1].replace('\t', ' ').strip('\r\n')
+            if rest and rest[0] != ' ':
+                return True
+    return False
 
 
 class Check(PropCheck):
